@@ -83,6 +83,10 @@ def BHJM_magnet_tetrahedron(
     # allocate - try not to generate more arrays
     BHJM = polarization.astype(float)
 
+    # same vertex order for the inside check of all fields (the check rounds
+    # differently for different orders when the observer lies on a face)
+    vertices = check_chirality(vertices)
+
     if field == "J":
         mask_inside = point_inside(observers, vertices, in_out)
         BHJM[~mask_inside] = 0
@@ -92,8 +96,6 @@ def BHJM_magnet_tetrahedron(
         mask_inside = point_inside(observers, vertices, in_out)
         BHJM[~mask_inside] = 0
         return BHJM / MU0
-
-    vertices = check_chirality(vertices)
 
     tri_vertices = np.concatenate(
         (
